@@ -7,6 +7,7 @@ import (
 	"fmt"
 	"io"
 	"os"
+	"strings"
 	"time"
 
 	"github.com/AdguardTeam/golibs/logutil/slogutil"
@@ -51,6 +52,10 @@ type c20Hist struct {
 	// happened.
 	rot     string
 	rotated bool
+	// grown is set once whole lines were appended to the newest file after
+	// the reader was created; hot holds the indices of the appended lines.
+	grown bool
+	hot   []int
 
 	cursor int // index into lines of the next line ReadNext must return; -1: io.EOF
 	log    []string
@@ -157,6 +162,14 @@ func (h *c20Hist) reads(n int, after string) {
 			h.ended = true
 			return
 		}
+	} else if h.grown {
+		m.noLocus = true
+		ok := m.compare(h.level+"-history:append-before-positioning:reads-after-"+after, op, got, rerr, exp, full, h.witness(nil))
+		m.noLocus = false
+		if !ok {
+			h.ended = true
+			return
+		}
 	} else if !m.compare(h.level+"-history:reads-after-"+after, op, got, rerr, exp, full, h.witness(nil)) {
 		h.ended = true
 		return
@@ -221,6 +234,12 @@ func (h *c20Hist) afterFailedSeek(class, targetRole string, err error) {
 func (h *c20Hist) pickPresent() int {
 	rng := h.m.rng
 	n := len(h.lines)
+	if len(h.hot) > 0 && rng.Intn(2) == 0 {
+		// an appended line, or the line just before the appended ones
+		if i := h.hot[0] - 1 + rng.Intn(len(h.hot)+1); i >= 0 {
+			return i
+		}
+	}
 	if len(h.starts) > 0 && rng.Intn(3) == 0 {
 		s := h.starts[0]
 		i := s - 2 + rng.Intn(5)
@@ -287,6 +306,17 @@ func (h *c20Hist) pickAbsent(failing bool) (a c20Absent, role string, ok bool) {
 		return c20Absent{ts: first - d, class: "before-first", older: 0}, "before-everything", true
 	case k == 3 && h.level == "file":
 		return c20Absent{ts: last + 1 + rng.Int63n(1e12), class: "after-last", older: n}, "file", true
+	}
+	if len(h.hot) >= 2 && rng.Intn(2) == 0 {
+		// between two appended lines, or between the snapshot and the first
+		// appended line
+		i := h.hot[rng.Intn(len(h.hot))]
+		// (not across the file boundary: that target is "later than a whole
+		// file", for which the reader reports success)
+		if i > 0 && h.lines[i].file == h.lines[i-1].file && h.lines[i].ts-h.lines[i-1].ts >= 2 {
+			lo, hi := h.lines[i-1].ts, h.lines[i].ts
+			return c20Absent{ts: lo + 1 + rng.Int63n(hi-lo-1), class: "between-neighbours", older: i}, "appended", true
+		}
 	}
 	for try := 0; try < 30; try++ {
 		var i int
@@ -362,7 +392,11 @@ func (h *c20Hist) run(nops int) {
 			h.note("seekTS(timestamp of index %d = %d) -> %s", gi, h.lines[gi].ts, c20ErrStr(err))
 			m.rec.events["history("+h.level+"):ops:seekTS(present)"]++
 			if err != nil {
-				m.rec.violate(h.level+"-history:seek-present:"+c20ErrClass(err),
+				key := h.level + "-history:seek-present:" + c20ErrClass(err)
+				if h.grown {
+					key = h.level + "-history:append-before-positioning:seek-present:" + c20ErrClass(err)
+				}
+				m.rec.violate(key,
 					"seekTS to the timestamp of a stored entry failed on a reused "+h.level+": "+err.Error(),
 					h.witness(map[string]any{"case": m.c.describe(), "target": c20LineInfo(h.lines[gi])}))
 				return
@@ -382,6 +416,12 @@ func (h *c20Hist) run(nops int) {
 			}
 			h.note("seekTS(absent %d, %s, %d line(s) older) -> %s", a.ts, a.class, a.older, c20ErrStr(err))
 			m.rec.events["history("+h.level+"):ops:seekTS(absent,failing)"]++
+			if err == nil && h.grown {
+				m.rec.violate(h.level+"-history:append-before-positioning:seek-absent:"+a.class+":success",
+					"seekTS to a timestamp that no stored entry has reported success after lines had been appended to the file",
+					h.witness(map[string]any{"case": m.c.describe(), "target_unix_nano": a.ts, "target_lies_in": role}))
+				return
+			}
 			if err == nil {
 				// Asserted by the single-operation part of the monitor.
 				m.rec.events["history("+h.level+"):ended_on_an_outcome_judged_elsewhere"]++
@@ -741,5 +781,164 @@ func (h *c20Hist) position(i int) {
 		m.rec.violate(key, "positioning a reader on the files it was created on failed: "+err.Error(),
 			h.witness(map[string]any{"case": m.c.describe(), "rotation_phase": h.rot}))
 		h.ended = true
+	}
+}
+
+// ---- lines appended between the creation of a reader and its positioning --
+//
+// SeekStart and seekTS of the unchanged code take the size of the file when
+// they are called, so "every line" and "a stored entry" of the statement mean
+// the content of the file at the moment of the positioning call, also for a
+// reader that was created earlier.  (Positions already taken are not moved
+// by an append: reads that simply continue return the older lines as before.)
+// The harness appends whole lines with increasing timestamps between two calls,
+// never during one, so the expectation is exact.
+
+// c20AppendLines appends n newer lines to the current file and returns them.
+func (m *c20Mon) c20AppendLines(lines []c20Line, n int) (out []c20Line, err error) {
+	c := m.c
+	fi := len(c.files) - 1
+	st, err := os.Stat(c.curPath)
+	if err != nil {
+		return nil, err
+	}
+	off := st.Size()
+	ts := time.Date(2031, 1, 1, 0, 0, 0, 0, time.UTC).UnixNano()
+	idx := 0
+	if k := len(lines); k > 0 {
+		ts = lines[k-1].ts
+		if lines[k-1].file == fi {
+			idx = lines[k-1].idx + 1
+		}
+	}
+	var buf []byte
+	for i := 0; i < n; i++ {
+		switch m.rng.Intn(4) {
+		case 0:
+			ts += 2
+		case 1:
+			ts += 2 + m.rng.Int63n(1000)
+		default:
+			ts += 2 + m.rng.Int63n(int64(time.Minute))
+		}
+		l := c20MinLen + m.rng.Intn(500)
+		if m.rng.Intn(15) == 0 {
+			l = c20RandLen(m.rng, c20Weighted(m.rng, c20WMixed))
+		}
+		text := c20MakeLine(time.Unix(0, ts).UTC().Format(time.RFC3339Nano), 800000+idx, l)
+		out = append(out, c20Line{ts: ts, text: text, off: off + int64(len(buf)), file: fi, idx: idx})
+		buf = append(buf, text...)
+		buf = append(buf, '\n')
+		idx++
+	}
+	f, err := os.OpenFile(c.curPath, os.O_WRONLY|os.O_CREATE|os.O_APPEND, 0o644)
+	if err != nil {
+		return nil, err
+	}
+	defer f.Close()
+	_, err = f.Write(buf)
+	return out, err
+}
+
+// growthHistories runs count histories at each level in which lines are
+// appended after the object was created and between its positionings.
+func (m *c20Mon) growthHistories(count int, big bool) {
+	c := m.c
+	k0, k1 := 0, 2*count
+	if big {
+		// every history rewrites the files: one history, levels alternating
+		k0 = c.id % 2
+		k1 = k0 + 1
+	}
+	for k := k0; k < k1 && !m.dead; k++ {
+		if err := c.rewrite(); err != nil {
+			m.rec.inconcl = append(m.rec.inconcl, "cannot restore the files for a growth history: "+err.Error())
+			return
+		}
+		level := []string{"reader", "file"}[k%2]
+		var h *c20Hist
+		var closer func() error
+		if level == "reader" {
+			r, err := newQLogReader(m.ctx, slogutil.NewDiscardLogger(), []string{c.curPath + ".1", c.curPath})
+			if err != nil {
+				return
+			}
+			var starts []int
+			if len(c.files) == 2 && len(c.files[0].lines) > 0 && len(c.files[1].lines) > 0 {
+				starts = []int{c.first[1]}
+			}
+			var roles []string
+			for _, f := range c.files {
+				roles = append(roles, f.role)
+			}
+			h = &c20Hist{m: m, level: "reader", lines: c.all, starts: starts, roles: roles,
+				seekStart:  r.SeekStart,
+				seekTS:     func(ts int64) error { return r.seekTS(m.ctx, ts) },
+				seekRecord: func(t time.Time) error { return r.seekRecord(m.ctx, t) },
+				rd:         r, cursor: -1, id: fmt.Sprintf("grow-r%d", k)}
+			h.note("newQLogReader([<log>.1, <log>]) on files as generated")
+			closer = r.Close
+		} else {
+			q, err := newQLogFile(c.curPath)
+			if err != nil {
+				return
+			}
+			cur := c.files[len(c.files)-1]
+			h = &c20Hist{m: m, level: "file", lines: cur.lines,
+				seekStart: func() error { _, e := q.SeekStart(); return e },
+				seekTS: func(ts int64) error {
+					_, _, e := q.seekTS(m.ctx, slogutil.NewDiscardLogger(), ts)
+					return e
+				},
+				rd: q, cursor: -1, id: fmt.Sprintf("grow-f%d", k)}
+			h.note("newQLogFile(<log>) on the file as generated")
+			closer = q.Close
+		}
+		// Half of the histories position and read before the first append.
+		if m.rng.Intn(2) == 0 && len(h.lines) > 0 {
+			h.run(1 + m.rng.Intn(3))
+		}
+		for round := 0; round < 2 && !h.ended && !m.dead; round++ {
+			app, err := m.c20AppendLines(h.lines, 1+m.rng.Intn(12))
+			if err != nil {
+				m.rec.inconcl = append(m.rec.inconcl, "append step failed: "+err.Error())
+				break
+			}
+			grown := make([]c20Line, 0, len(h.lines)+len(app))
+			grown = append(grown, h.lines...)
+			h.hot = nil
+			for _, l := range app {
+				h.hot = append(h.hot, len(grown))
+				grown = append(grown, l)
+			}
+			h.lines = grown
+			h.grown = true
+			if level == "reader" && len(c.files) == 2 && len(c.files[0].lines) > 0 {
+				// the current file is not empty any more, if it was
+				h.starts = []int{c.first[1]}
+			}
+			tss := make([]string, len(app))
+			for i, l := range app {
+				tss[i] = fmt.Sprintf("%d(len %d)", l.ts, len(l.text))
+			}
+			h.note("APPEND to <log> (one O_APPEND Write, finished before the next call) %d line(s), format as generated with i=800000+k: %s", len(app), strings.Join(tss, " "))
+			m.rec.events["history("+level+"):appends_between_calls"]++
+			m.rec.events["history("+level+"):lines_appended_between_calls"] += len(app)
+			if round == 0 && h.cursor == -1 && len(h.log) == 2 {
+				m.rec.events["history("+level+"):append_before_the_first_positioning"]++
+			}
+			// Sometimes reads simply continue from the position taken before
+			// the append: older lines, unaffected.
+			if h.cursor >= 0 && m.rng.Intn(3) == 0 {
+				h.reads(h.readsCount(), "reads")
+			}
+			if !h.ended {
+				h.run(4 + m.rng.Intn(3))
+			}
+		}
+		m.rec.events["history("+level+"):growth_histories"]++
+		if !m.rec.hung {
+			_ = closer()
+		}
 	}
 }
